@@ -390,6 +390,7 @@ class _SutReferenceNormalizer(cst.CSTTransformer):
         self._module_alias = module_alias
         self._bindings: dict[str, _SutBinding] = {}
         self._replacements: dict[int, cst.BaseExpression] = {}
+        self._keyword_names: set[int] = set()
 
     def _resolve(self, chain: list[str]) -> list[str] | None:
         root, *rest = chain
@@ -476,7 +477,17 @@ class _SutReferenceNormalizer(cst.CSTTransformer):
     ) -> cst.BaseExpression:
         return self._replacements.pop(id(original_node), updated_node)
 
+    def visit_Arg(self, node: cst.Arg) -> bool:  # noqa: N802
+        # The keyword of a call argument (``label`` in ``f(label=x)``) is a parameter
+        # name, not a reference, even if the module under test exports that name.
+        if node.keyword is not None:
+            self._keyword_names.add(id(node.keyword))
+        return True
+
     def visit_Name(self, node: cst.Name) -> bool:  # noqa: N802
+        if id(node) in self._keyword_names:
+            self._keyword_names.discard(id(node))
+            return True
         replacement = self._resolve([node.value])
         if replacement is not None:
             self._replacements[id(node)] = _build_chain(replacement)
